@@ -16,11 +16,44 @@ def main():
     # diff(cumsum to outer) = id in the reference itself
     c = simple.ref_cumsum(a, "center", "outer", 3, "fill", 0.0)
     assert np.array_equal(simple.ref_stencil(c, "outer", "center", 3, "diff", "fill", 0.0), a)
-    try:
-        from xmc import explorer
-        explorer.selftest()
-    except ImportError:
-        pass
+    from xmc import explorer
+    explorer.selftest()
+    # reference models agree with each other: every geometry-derived table is reciprocal, and the
+    # index-level link rule (C05) reproduces the geometric lookup (C03) on every expressible junction
+    import itertools
+    from xmc.ref import topology as T
+    n_tab = n_cells = 0
+    for (Kx, Ky), per in itertools.product([(2, 1), (1, 2), (2, 2)], [(False, False), (True, True)]):
+        for D, table, kinds in T.expressible_assignments(Kx, Ky, 2, per):
+            assert T.reciprocal(table), (D.names, table)
+            n_tab += 1
+            if n_tab % 7:
+                continue
+            G = np.arange(D.W * D.H, dtype=float).reshape(D.H, D.W) * 3 + 1
+            F = D.cut(G)
+            N = D.N
+            for f in range(D.nf):
+                for axis in ("X", "Y"):
+                    for side in (0, 1):
+                        for k in (1, 2):
+                            for t in range(N):
+                                v = T.ref_halo(table, N, {"s": F}, "s", f, axis, side, k, t, False)
+                                pos = -k if side == 0 else N - 1 + k
+                                cell = (pos, t) if axis == "X" else (t, pos)
+                                g = D.glob(f, *cell)
+                                if v is None:
+                                    assert g is None
+                                else:
+                                    assert g is not None and v == G[g[1], g[0]], (D.names, f, axis, side, k, t)
+                                    n_cells += 1
+    assert n_tab == 704 and n_cells > 1000, (n_tab, n_cells)
+    # signature recogniser: language membership of a few hand-checked strings
+    from xmc.ref import signature as SG
+    assert SG.in_language("(X:center)->(X:left)") and SG.in_language("( X : center , Y:left ) -> ( ) , ( Y:outer )")
+    for bad in ("(X:centerY:left)->()", "(X:center)->", "->(X:center)", "((X:center))->()", "(X:center)(Y:left)->()", "(:center)->()", "(X:)->()",
+                "(X:center,,Y:left)->()", "(X:centre)->()", "(X:center)->()x"):
+        assert not SG.in_language(bad) and not SG.unspecified(bad), bad
+    assert SG.unspecified("(X:center,)->()")
     import xgcm
     print("xmc selftest ok; xgcm from", xgcm.__file__)
     return 0
